@@ -1669,9 +1669,19 @@ func symbolsLocked(t *Term) []int {
 }
 
 // Slice keeps the assertions that share symbols (transitively) with goal.
-func Slice(asserts []*Term, goal *Term) []*Term {
+func Slice(asserts []*Term, goal *Term) []*Term { return sliceBy(asserts, goal, false) }
+
+// SliceVars is the finer cut: assertions are connected through shared variables only (uninterpreted
+// function heads do not connect them). Its unsat answers are sound (a subset of the constraints);
+// its sat answers must be validated against the whole constraint set.
+func SliceVars(asserts []*Term, goal *Term) []*Term { return sliceBy(asserts, goal, true) }
+
+func sliceBy(asserts []*Term, goal *Term, varsOnly bool) []*Term {
 	want := map[int]bool{}
 	for _, x := range Symbols(goal) {
+		if varsOnly && x < 0 {
+			continue
+		}
 		want[x] = true
 	}
 	used := make([]bool, len(asserts))
@@ -1697,6 +1707,9 @@ func Slice(asserts []*Term, goal *Term) []*Term {
 				used[i] = true
 				changed = true
 				for _, x := range syms[i] {
+					if varsOnly && x < 0 {
+						continue
+					}
 					want[x] = true
 				}
 			}
